@@ -52,6 +52,8 @@ func runC11(p *load.Program, r *core.Report) {
 	byteOrderRule(p, r, "C11.E8 byte-order", "C11.E8", []string{"net/edf"}, 60)
 	c11NilVsEmpty(p, r)
 	c11ReadTiling(p, r)
+	c11ElementFlagReset(p, r)
+	c11DecodeCacheKeys(p, r)
 }
 
 // c11ReadTiling: E2r — in every decoder of net/edf the fixed-width reads taken from one packet
@@ -1206,3 +1208,155 @@ func c11CacheDirection(p *load.Program, r *core.Report) {
 }
 
 var _ = load.Module
+
+// c11ElementFlagReset: E10 — the 'write the type header' flag of the shared encode state is sticky:
+// encoding an interface-typed value sets it and nothing clears it. Every composite encoder therefore
+// resets it before each element it encodes. In every loop of net/edf that calls an element
+// encoder (the Encode function field of an *encoder), each such call is reached — from the loop
+// header and from every other element-encoder call of the loop — only through a store of false to
+// the flag. A missing reset between a map's key and its value makes the value carry a type header
+// the decoder does not expect, for exactly the maps whose key is interface-typed.
+func c11ElementFlagReset(p *load.Program, r *core.Report) {
+	rule := "C11.E10 element-type-flag-reset"
+	r.Floor(rule, 9)
+	for _, f := range funcsOfPkgs(p, "net/edf") {
+		isElemEncode := func(in ssa.Instruction) bool {
+			c, ok := in.(*ssa.Call)
+			if !ok || c.Common().IsInvoke() || c.Common().StaticCallee() != nil {
+				return false
+			}
+			ld, ok := c.Common().Value.(*ssa.UnOp)
+			if !ok || ld.Op != token.MUL {
+				return false
+			}
+			own, fl := fieldOwner(ld.X)
+			return own != nil && own.Obj().Name() == "encoder" && fl == "Encode"
+		}
+		isReset := func(in ssa.Instruction) bool {
+			st, ok := in.(*ssa.Store)
+			if !ok {
+				return false
+			}
+			if _, fl := fieldOwner(st.Addr); fl != "encodeType" {
+				return false
+			}
+			b, okb := constBool(st.Val)
+			return okb && !b
+		}
+		var calls []ssa.Instruction
+		eachInstr(f, func(in ssa.Instruction) {
+			if isElemEncode(in) && loopHeaderOf(in) != nil {
+				calls = append(calls, in)
+			}
+		})
+		seq := 0
+		for _, c := range calls {
+			seq++
+			fn := fname(f)
+			key := fmt.Sprintf("C11.E10|%s|element#%d", fn, seq)
+			inst := "the element encoder is called with the type-header flag freshly cleared"
+			hdr := loopHeaderOf(c)
+			starts := []Point{{hdr, 0}}
+			for _, o := range calls {
+				if loopHeaderOf(o) == hdr {
+					starts = append(starts, after(o))
+				}
+			}
+			bad := false
+			for _, s := range starts {
+				for _, hit := range walkAvoid([]Point{s}, func(in ssa.Instruction) bool {
+					return isReset(in) || (isElemEncode(in) && in != c)
+				}, func(in ssa.Instruction) bool { return in == c }) {
+					_ = hit
+					bad = true
+				}
+			}
+			if bad {
+				r.Bad(rule, key, fn, p.Pos(c.Pos()), inst, "the call is reachable from the loop header or from the previous element's encoder without state.encodeType = false: after an interface-typed element (which sets the flag) this element is written with a type header the decoder does not expect")
+			} else {
+				r.OK(rule, key, fn, p.Pos(c.Pos()), inst, "every path to the call inside the loop passes the reset, no other element encoder in between")
+			}
+		}
+	}
+}
+
+// c11DecodeCacheKeys: E6b — a decode cache translates the ids the PEER uses on the wire. In every
+// makeDecode*Cache builder each entry is stored under a key taken from ranging over the peer's table
+// (the last map parameter), and its value never comes from indexing the local table by that id:
+// ids are assigned per process in registration order, only the text identifies a registered error.
+func c11DecodeCacheKeys(p *load.Program, r *core.Report) {
+	rule := "C11.E6b decode-cache-keyed-by-peer-ids"
+	r.Floor(rule, 3)
+	for _, f := range funcsOfPkgs(p, "net/handshake") {
+		if f.Parent() != nil || !strings.HasPrefix(f.Name(), "makeDecode") || !strings.HasSuffix(f.Name(), "Cache") {
+			continue
+		}
+		var maps []*ssa.Parameter
+		for _, pa := range f.Params {
+			if _, ok := pa.Type().Underlying().(*types.Map); ok {
+				maps = append(maps, pa)
+			}
+		}
+		fn := fname(f)
+		key := "C11.E6b|" + fn
+		inst := "entries are stored under the ids found in the peer's table; a local error is chosen by its text, not by its local id"
+		if len(maps) == 0 {
+			r.Unk(rule, key, fn, p.Pos(f.Pos()), inst, "no map parameter")
+			continue
+		}
+		remote := maps[len(maps)-1]
+		rangeOf := func(v ssa.Value) (ssa.Value, int) { // the ranged map and the tuple index (1 key, 2 value)
+			v = stripIface(v)
+			ex, ok := v.(*ssa.Extract)
+			if !ok {
+				return nil, 0
+			}
+			nx, ok := ex.Tuple.(*ssa.Next)
+			if !ok {
+				return nil, 0
+			}
+			rg, ok := nx.Iter.(*ssa.Range)
+			if !ok {
+				return nil, 0
+			}
+			return rg.X, ex.Index
+		}
+		var probs []string
+		n := 0
+		eachInstr(f, func(in ssa.Instruction) {
+			cc := callCommon(in)
+			if cc == nil {
+				return
+			}
+			if m, ok := syncMapCall(cc); !ok || m != "Store" || len(cc.Args) < 3 {
+				return
+			}
+			n++
+			if m, idx := rangeOf(cc.Args[1]); m != ssa.Value(remote) || idx != 1 {
+				probs = append(probs, "the entry stored at "+p.Pos(in.Pos())+" is not keyed by an id ranged from the peer's table")
+			}
+			// the value must not be local[id]
+			val := stripIface(cc.Args[2])
+			if lk, ok := val.(*ssa.Lookup); ok {
+				for _, lm := range maps[:len(maps)-1] {
+					if lk.X == ssa.Value(lm) {
+						probs = append(probs, "the value stored at "+p.Pos(in.Pos())+" is the local table indexed by id")
+					}
+				}
+			}
+			if m, idx := rangeOf(val); m != nil && m != ssa.Value(remote) && idx == 2 {
+				// value ranged from the local table, stored under ...? only allowed when the key came from the peer's table via text (not expressible here)
+				probs = append(probs, "the value stored at "+p.Pos(in.Pos())+" is ranged from the local table (paired with its local id)")
+			}
+		})
+		if n == 0 {
+			r.Unk(rule, key, fn, p.Pos(f.Pos()), inst, "no Store into the cache found")
+			continue
+		}
+		if len(probs) > 0 {
+			r.Bad(rule, key, fn, p.Pos(f.Pos()), inst, strings.Join(probs, "; ")+": ids differ between two nodes that registered their errors/types in another order — the peer's id N then decodes as our N (another error)")
+		} else {
+			r.OK(rule, key, fn, p.Pos(f.Pos()), inst, fmt.Sprintf("%d Store(s), each keyed by the peer's id", n))
+		}
+	}
+}
